@@ -127,6 +127,10 @@ func Compile(options Options) (result *Result, err error) {
 
 	options.Log("Kompiliere den Abstrakten Syntaxbaum zu LLVM ir")
 
+	if ddp_main_module.Ast.Faulty {
+		return nil, fmt.Errorf("Fehlerhafter Quellcode im Modul '%s', Kompilierung abgebrochen", ddp_main_module.GetIncludeFilename())
+	}
+
 	if !options.LinkInModules {
 		options.Log("Erstelle llvm Context")
 		llctx, err := newllvmContext()
